@@ -753,7 +753,43 @@ func crossingConventionRule(p *core.Program, r *core.Report, rule string) {
 				}
 				return eng.CVal{}, false
 			}
-			top := ev.Run(fn, nil)
+			// the three coordinates travel as symbols, so that a predicate helper handed (p, p1, p2) reads the same
+			// representative ordinates from its own parameters
+			base := ev.Override
+			ev.Override = func(f *ssa.Function, v ssa.Value, args []eng.CVal) (eng.CVal, bool) {
+				// the test point: the counter's field p, read in countSegment or in a method it was split into
+				if _, path, ok := fieldLoad(v); ok && path == ".p" && f.Pkg == fn.Pkg {
+					return eng.SymV("coord:p"), true
+				}
+				return base(f, v, args)
+			}
+			ev.OverrideIn = func(res *eng.CEResult, v ssa.Value, args []eng.CVal) (eng.CVal, bool) {
+				ld, ok := v.(*ssa.UnOp)
+				if !ok || ld.Op != token.MUL {
+					return eng.CVal{}, false
+				}
+				ia, ok := ld.X.(*ssa.IndexAddr)
+				if !ok {
+					return eng.CVal{}, false
+				}
+				if k, isC := eng.ConstInt(ia.Index); !isC || k != 1 {
+					return eng.CVal{}, false
+				}
+				xv := res.Of(ia.X)
+				if xv.K != eng.CSym {
+					return eng.CVal{}, false
+				}
+				switch xv.S {
+				case "coord:p1":
+					return eng.ConstV(constant.MakeFloat64(float64(10 + s1))), true
+				case "coord:p2":
+					return eng.ConstV(constant.MakeFloat64(float64(10 + s2))), true
+				case "coord:p":
+					return eng.ConstV(constant.MakeFloat64(10)), true
+				}
+				return eng.CVal{}, false
+			}
+			top := ev.Run(fn, []eng.CVal{eng.Top, eng.SymV("coord:p1"), eng.SymV("coord:p2")})
 			eng.WalkReached(top, func(act *eng.CEResult, in ssa.Instruction) {
 				if st, ok := in.(*ssa.Store); ok {
 					if _, path := fieldRoot(st.Addr); path == ".crossingCount" {
